@@ -83,6 +83,7 @@ def emit_one(g, gi, runtime_ctor=False, limits=None, extra_decl=''):
         elif r.ftor == 'x': txt += ' >>= vf::X<%d, %s>{}' % (ri, vt); is_ctx = True
         elif r.ftor == 'd': pass
         elif r.ftor[0] == 'e' and r.ftor[1:].isdigit(): txt += ' >= _' + r.ftor
+        elif r.ftor[0] == 'c' and r.ftor[1:] in VT: txt += ' >= vf::R<%d, %s>{}' % (ri, VT[r.ftor[1:]])
         else: txt += ' >= ' + r.ftor      # literal C++ functor expression (helper functors)
         rules.append(txt)
     if extra_decl: o.append(extra_decl)
